@@ -26,6 +26,10 @@ theorem trigger_matches_code (e : Endpoint) :
 /-- the model defers the packet when the nested IGNORE call started an exchange, as the code does (repair of F58) -/
 theorem nested_ignore_rechecked : Gen.C11.recheckAfterIgnore = true := by decide
 
+/-- **Tie to the code (F145)**: `send_newkeys` restarts both rekey limits before it flushes the deferred packets, which
+    is what `sendNewkeys` models by clearing `rekeyDue` (`newkeys_flush_sends_everything`). -/
+theorem limits_restart_at_newkeys : Gen.C11.restartLimitsAtNewkeys = true := by decide
+
 /-- key-exchange and transport-control messages: everything `send_packet` never defers during an exchange -/
 def controlType (t : Nat) : Prop :=
   t ≤ MSG_KEX_LAST ∧ t ≠ MSG_DEBUG ∧ t ≠ MSG_SERVICE_REQUEST ∧ t ≠ MSG_SERVICE_ACCEPT
@@ -176,6 +180,72 @@ theorem prefix_emits_data_during_exchange :
 theorem late_limit_defers_example :
     let e := run { server := false } [.late, .submit ⟨94, 1⟩, .submit ⟨94, 2⟩]
     (e.out.map fun w => w.pkt.type) = [20, 2] ∧ e.deferred = [⟨94, 1⟩, ⟨94, 2⟩] ∧ e.lateArmed = false := by
+  decide
+
+/-! ### once an exchange is complete, what was held back goes out -/
+
+/-- an endpoint with nothing pending that makes a send start an exchange -/
+structure Calm (e : Endpoint) : Prop where
+  auth : e.authComplete = true
+  kc : e.kexComplete = true
+  due : e.rekeyDue = false
+  late : e.lateArmed = false
+
+theorem sendPacket_calm (e : Endpoint) (p : Pkt) (h : Calm e) :
+    Calm (sendPacket e p) ∧ (sendPacket e p).deferred = e.deferred := by
+  obtain ⟨ha, hk, hd, hl⟩ := h
+  have hmd : mustDefer e p.type = false := by simp [mustDefer, ha, hk]
+  unfold sendPacket
+  simp only [ha, hk, hd, Bool.and_false, Bool.false_eq_true, if_false, hmd]
+  split
+  · have hi : sendIgnore e = emit { e with lateArmed := false } ⟨MSG_IGNORE, 0⟩ := by
+      simp [sendIgnore, ha, hk, hd, hl]
+    rw [hi]
+    refine ⟨⟨?_, ?_, ?_, ?_⟩, ?_⟩ <;> simp [emit, hk, ha, hd]
+  · exact ⟨⟨ha, hk, hd, hl⟩, rfl⟩
+
+theorem foldl_sendPacket_calm (l : List Pkt) (e : Endpoint) (h : Calm e) :
+    Calm (l.foldl sendPacket e) ∧ (l.foldl sendPacket e).deferred = e.deferred := by
+  induction l generalizing e with
+  | nil => exact ⟨h, rfl⟩
+  | cons p ps ih =>
+    obtain ⟨h1, d1⟩ := sendPacket_calm e p h
+    obtain ⟨h2, d2⟩ := ih _ h1
+    exact ⟨h2, d2.trans d1⟩
+
+/-- **After NEWKEYS everything that was held back goes out**: for an authenticated endpoint, whatever limit ran
+    out while the exchange was in progress, `send_newkeys` empties the deferral queue — unless the clock passes the
+    (restarted) limit again inside one of the flushed `send_packet` calls (`lateArmed`).  Before the repair of F145
+    the timer was restarted only at KEXINIT, so with a rekey interval no longer than one exchange the first flushed
+    packet started the next exchange and no application packet ever left (`newkeys_flush_prefix_witness`). -/
+theorem newkeys_flush_sends_everything (e : Endpoint) (ha : e.authComplete = true) (hl : e.lateArmed = false) :
+    (sendNewkeys e).deferred = [] ∧ (sendNewkeys e).kexComplete = true := by
+  unfold sendNewkeys flushDeferred
+  have hnk : ∀ e : Endpoint, (sendPacket e ⟨MSG_NEWKEYS, 0⟩).authComplete = e.authComplete ∧
+      (sendPacket e ⟨MSG_NEWKEYS, 0⟩).lateArmed = e.lateArmed := by
+    intro e
+    have hle : ¬ (MSG_NEWKEYS > MSG_KEX_LAST) := by decide
+    unfold sendPacket
+    simp only
+    split <;> split <;> (try split) <;> (try split) <;> simp_all [sendKexinit, emit, MSG_NEWKEYS, MSG_KEX_LAST]
+  obtain ⟨h1, h2⟩ := hnk e
+  have hc : Calm { sendPacket e ⟨MSG_NEWKEYS, 0⟩ with
+      sendEpoch := (sendPacket e ⟨MSG_NEWKEYS, 0⟩).sendEpoch + 1, nextRecvReady := true, kexActive := false,
+      kexComplete := true, rekeyDue := false,
+      sessionId := match (sendPacket e ⟨MSG_NEWKEYS, 0⟩).sessionId with
+        | some h => some h
+        | none => some (sendPacket e ⟨MSG_NEWKEYS, 0⟩).sendEpoch,
+      deferred := [] } := ⟨by simpa using h1.trans ha, rfl, rfl, by simpa using h2.trans hl⟩
+  obtain ⟨c, d⟩ := foldl_sendPacket_calm (sendPacket e ⟨MSG_NEWKEYS, 0⟩).deferred _ hc
+  exact ⟨d, c.kc⟩
+
+/-- **Witness of defect F145 (repaired).**  A limit that expires while the exchange is running: before the repair
+    the flush after NEWKEYS sent KEXINIT again and kept the data back; now the data goes out. -/
+theorem newkeys_flush_prefix_witness :
+    let e : Endpoint := { server := false, kexComplete := false, kexActive := true, rekeyDue := true,
+                          deferred := [⟨94, 1⟩] }
+    ((sendNewkeysPreFix e).out.map fun w => w.pkt.type) = [21, 20] ∧ (sendNewkeysPreFix e).deferred = [⟨94, 1⟩] ∧
+    ((sendNewkeys e).out.map fun w => w.pkt.type) = [21, 2, 94] ∧ (sendNewkeys e).deferred = [] := by
   decide
 
 /-! ### no loss, duplication or reordering of what upper layers submit -/
